@@ -59,7 +59,7 @@ Section Step.
     intros opc ip0 ip s Hs; unfold i_37_42; cbv zeta.
     destruct (op_u32 P ip); [|ok_close]. destruct (op_u32 P (ip + 4)); [|ok_close].
     destruct (salloc s _) as [s1 a] eqn:E. apply push_next_ok.
-    apply salloc_keep in E; [ok_close|destruct (opc =? 37)%N; reflexivity].
+    apply salloc_keep in E; [ok_close|destruct (opc =? 37)%N; intros ? ?; discriminate].
   Qed.
   Lemma i_38_ok : forall opc ip0 ip s, vm_ok s -> sres_ok (i_38 P opc ip0 ip s). Proof. instr i_38. Qed.
 
@@ -148,7 +148,7 @@ Section Step.
       destruct (hget (st_heap s1) ua) as [[t|b|h' ar'|h'|h' ar' ups'|u]|] eqn:Eu; try exact H1; try exact I.
       destruct (u_loc u) as [l|] eqn:El; cbn [sres_ok].
       + ok_close.
-      + apply (keep_vm_ok s1); [|exact H1]. apply hset_keep; [rewrite Eu; cbn; rewrite El; reflexivity|reflexivity].
+      + apply (write_closed_vm_ok s1 ua u wv Eu El H1).
     - destruct (st_calls s) as [|fr rest]; [exact I|].
       destruct (fr_clo fr) as [ca|]; [|exact Hs].
       destruct (hget (st_heap s) ca) as [[t|b|h ar|h|h ar ups|u]|]; try exact I.
@@ -497,7 +497,8 @@ Section Step.
          (exists nx, hget (st_heap s') ua = Some (OUp (mkUp (Some loc) VNil nx))) /\
          st_stack s' = st_stack s1 /\ st_calls s' = st_calls s1 /\ st_globals s' = st_globals s1 /\
          (forall x, oview (hget (st_heap s1) x) = None -> x <> ua -> x <> ca ->
-                    hget (st_heap s') x = hget (st_heap s1) x)).
+                    hget (st_heap s') x = hget (st_heap s1) x) /\
+         heap_mono (st_heap s1) (st_heap s')).
   Proof.
     intros Ei Eil Hnz Ep Hca Eo -> Hlt H1 Hl.
     pose proof (vm_ok_list _ _ H1 Hl) as Hh. pose proof Hh as (Hseg & D & Hb & Hc).
@@ -557,7 +558,7 @@ Section Step.
       assert (H3 : vm_ok s3).
       { unfold vm_ok, open_ok, cap in *. rewrite A1, A2. split; [eexists; exact Hh3|]. split; apply H1. }
       assert (K : keep s3 (set_heap s3 (hset (st_heap s3) ca (OClo ch car (cups ++ [ua']))))).
-      { apply hset_keep; [rewrite Hca3|]; reflexivity. }
+      { apply clo_append_keep. exact Hca3. }
       eexists. split; [reflexivity|]. split; [eapply keep_vm_ok; eauto|].
       split.
       { eapply keep_open_list; [exact K|]. unfold ua. rewrite <- Eua.
@@ -567,7 +568,9 @@ Section Step.
       split.
       { exists cur'. unfold ua. rewrite <- Eua. rewrite hget_hset_ne; [exact A8|]. intros E. apply Hne. symmetry. exact E. }
       repeat (split; [assumption|]).
-      intros x Hx Hxa Hxc. rewrite hget_hset_ne by exact Hxc. apply A9; [exact Hx|]. rewrite Eua. exact Hxa.
+      split.
+      { intros x Hx Hxa Hxc. rewrite hget_hset_ne by exact Hxc. apply A9; [exact Hx|]. rewrite Eua. exact Hxa. }
+      eapply heap_mono_trans; [exact (link_new_mono _ _ _ _ (prev_of l1 None) Ea)|]. apply K.
   Qed.
 
   Lemma i_45_ok : forall opc ip0 ip s, vm_ok s -> sres_ok (i_45 P opc ip0 ip s).
@@ -587,7 +590,7 @@ Section Step.
       destruct (fr_clo fr) as [fa|]; [|exact I].
       destruct (hget (st_heap s1) fa) as [[t|b|h ar|h|h ar fups|u]|]; try exact I.
       destruct (nth_error fups _) as [ua|]; [|exact I]. cbn [sres_ok].
-      apply (keep_vm_ok s1); [|exact H1]. apply hset_keep; [rewrite Eca|]; reflexivity.
+      apply (keep_vm_ok s1); [|exact H1]. apply clo_append_keep. exact Eca.
     - destruct (top_offset s1) as [off|] eqn:Eo.
       2:{ unfold i_45. rewrite Ei, Eil. cbv zeta. rewrite E1, Eca.
           destruct (N.eqb_spec is_local 0); [contradiction|]. cbn [negb]. rewrite Eo. exact I. }
@@ -601,7 +604,7 @@ Section Step.
       destruct (in_dec Nat.eq_dec (off + N.to_nat index) (slots l)) as [Hin|Hnin].
       + unfold slots in Hin. apply in_map_iff in Hin. destruct Hin as ([a k] & Ek & Hin). cbn in Ek. subst k.
         rewrite (Hex a Hin). cbn [sres_ok].
-        apply (keep_vm_ok s1); [|exact H1]. apply hset_keep; [rewrite Eca|]; reflexivity.
+        apply (keep_vm_ok s1); [|exact H1]. apply clo_append_keep. exact Eca.
       + destruct (Hnew Hnin) as (s' & E & H' & _). rewrite E. exact H'.
   Qed.
 
